@@ -47,7 +47,7 @@ for pid, tech, text in [
   "Theorems in coq/Properties/Properties_C08.v; at-most-once/right-socket/order over whole scenarios by trace equality with the composite model."),
  ("C11", "Coq proof (registry as a map with unique keys: decision table, exclusivity, ephemeral port free, wildcard = first of family, TCP/UDP independent, release of own binding only) + trace equality + reference-registry oracle after every step",
   "Theorems in coq/Properties/Properties_C11.v for every registry state with unique keys and every request."),
- ("C13", "Coq proof (NAT changes the source address only; the connection record only for the connector's SYN) + whole-scenario trace equality + endpoint-view oracle",
+ ("C13", "Coq proof (NAT changes the source address only; the connection record only for the connector's SYN; over whole routes: any chain of NAT hops is crossed in the same step and leaves kind, bytes, number, port, remaining route and every socket/registry untouched, the source address becoming the last NAT's; the last hop delivers in the same step) + whole-scenario trace equality + endpoint-view oracle",
   "Theorems in coq/Properties/Properties_C13.v."),
  ("C14", "Coq proof (scheduling rule max(now, last)+latency, literals in completion-time order, cancel aborts every pending lookup exactly once) + exhaustive short sequences and random long ones in trace equality + serial-server oracle",
   "Theorems in coq/Properties/Properties_C14.v."),
